@@ -80,3 +80,25 @@ def check(run, M, tier):
     ba = bound_args(M, f, cs[0]) if len(cs) == 1 else None
     ok = ba == {"input": "input", "wave_name": "self.wave_name", "axes": "self.axes", "level": "self.level"}
     run.check(ok, "W2", "Wavelet._apply", f.loc(), "fwt(input, wave_name, axes, level) with the stored parameters", "Wavelet._apply calls `%s`" % (unparse(cs[0]) if cs else "nothing"), stmt="W2:fwt-call")
+    # W3 "the inverse is the adjoint of the forward transform": each operator names the other as its adjoint, for the same shape and the same
+    # (wave_name, axes, level) -- a keyword lost on the way silently selects the default (all axes / db4 / maximum level)
+    run.rule("W3", "Wavelet.H is InverseWavelet(ishape, wave_name, axes, level) and InverseWavelet.H is Wavelet(oshape, wave_name, axes, level) with the operator's own parameters")
+    from ..linopdesc import LV, _t
+    for inst, cname, partner, shape_attr in ((w, "Wavelet", "InverseWavelet", "ishape"), (iw, "InverseWavelet", "Wavelet", "oshape")):
+        g, res = alg.eval_method(inst, "_adjoint_linop")
+        for conds, ret in res:
+            bad = []
+            if not (isinstance(ret, LV) and ret.kind == "prim" and ret.cls.name == partner):
+                bad.append("the adjoint is %s, not %s" % (_show(ret)[:120], partner))
+            else:
+                for kw in ("wave_name", "axes", "level"):
+                    v = ret.attrs.get(kw)
+                    shown = T.show(_t(v), 100) if v is not None else "missing"
+                    if shown != kw:
+                        bad.append("%s is built with %s = %s (this operator uses `%s`)" % (partner, kw, shown, kw))
+                own = inst.ishape if shape_attr == "ishape" else inst.oshape
+                other = ret.oshape if partner == "InverseWavelet" else ret.ishape
+                if not val_eq(other, own):
+                    bad.append("%s is built for shape %s, this operator's %s is %s" % (partner, _show(other)[:80], shape_attr, _show(own)[:80]))
+            run.check(not bad, "W3", cname + "._adjoint_linop", g.loc(), "%s with the same shape, wave_name, axes, level" % partner,
+                      "%s._adjoint_linop: %s" % (cname, "; ".join(bad[:3])), stmt="W3:" + cname)
